@@ -98,6 +98,27 @@ MTimePairs(St, vs) ==
                    i \in 1..Len(St.objs[b][k])} : k \in Keys} :
             b \in {x \in Buckets : St.bver[x] # "Absent"}}
 
+\* C14: where the part data lives.  The driver reads, for every completed object row, the part
+\* store recorded on each of its part rows and checks that the bytes are physically there.
+\* Every version's parts must live in the store its storage class maps to (stack "classes":
+\* GLACIER -> cold, STANDARD_IA -> warm, everything else -> default).
+StoreFor(class) == CASE class = "GLACIER" -> "cold" [] class = "STANDARD_IA" -> "warm" [] OTHER -> "default"
+PlacementOK(e, St) ==
+  e.placed =>
+    /\ \A i \in 1..Len(e.placement) :
+         LET p == e.placement[i]
+             vs == St.objs[p.b][p.k] IN
+         /\ Idx(vs, p.vid) # 0
+         /\ ~vs[Idx(vs, p.vid)].dm
+         /\ p.class = vs[Idx(vs, p.vid)].class
+         /\ p.present
+         /\ Len(p.stores) = Len(vs[Idx(vs, p.vid)].parts)
+         /\ \A j \in 1..Len(p.stores) : p.stores[j] = StoreFor(vs[Idx(vs, p.vid)].pcls[j])
+    /\ \A b \in Buckets : \A k \in Keys : \A n \in 1..Len(St.objs[b][k]) :
+         (~St.objs[b][k][n].dm /\ St.objs[b][k][n].parts # <<>>) =>
+            \E i \in 1..Len(e.placement) :
+               e.placement[i].b = b /\ e.placement[i].k = k /\ e.placement[i].vid = St.objs[b][k][n].vid
+
 \* ---- the result record as logged
 LRes(e) == [err |-> e.res.err, vid |-> e.res.vid, dm |-> e.res.dm, uid |-> e.res.uid]
 \* result fields that the operation defines (others are ignored)
@@ -142,6 +163,7 @@ StepMatches(e, a) ==
   /\ GetAgrees(e, a.s)
   /\ Functional(mtimes \cup MTimePairs(a.s, e.views))          \* C13: Last-Modified per version identity
   /\ ETagsConsistent(etags \cup ETagPairs(a.s, e.views))        \* C04: ETag is a function of the structure
+  /\ PlacementOK(e, a.s)                                        \* C14: part data placement
 FirstMatch(e) ==
   IF \E i \in 1..Len(Cands) : StepMatches(e, Apply(With(Cands[i]), e.call))
   THEN CHOOSE i \in 1..Len(Cands) :
@@ -163,7 +185,8 @@ TCall ==
      THEN Diag(l, IF ~ResAgrees(e.call, a.r, LRes(e)) THEN "result"
                   ELSE IF LViews(e.views) # MViews(a.s) THEN "views"
                   ELSE IF ~GetAgrees(e, a.s) THEN "get"
-                  ELSE IF ~Functional(M) THEN "mtime" ELSE "etag", a, e) /\ FALSE
+                  ELSE IF ~Functional(M) THEN "mtime"
+                  ELSE IF ~PlacementOK(e, a.s) THEN "placement" ELSE "etag", a, e) /\ FALSE
      ELSE IF ~FlagsOK(e.views) THEN Diag(l, "flags", a, e) /\ FALSE
      ELSE IF tk # {} THEN PrintT(ToJson([l |-> l, prog |-> prog, what |-> "deviation", tags |-> tk]))
      ELSE TRUE
